@@ -166,10 +166,15 @@ pub fn column_def(c: &RCol) -> ColumnDef {
 
 fn index_cols(ix: &mut IndexCreateStatement, cols: &[(Uid, Ord3)], name: &dyn Fn(Uid) -> String) {
     for (u, o) in cols {
-        match o {
-            Ord3::None => ix.col(a(&name(*u))),
-            Ord3::Asc => ix.col((a(&name(*u)), IndexOrder::Asc)),
-            Ord3::Desc => ix.col((a(&name(*u)), IndexOrder::Desc)),
+        // every third column goes through the forms with a prefix length, which SQLite documents as ignored
+        let with_prefix = (*u as u64 + cols.len() as u64) % 3 == 0;
+        match (o, with_prefix) {
+            (Ord3::None, false) => ix.col(a(&name(*u))),
+            (Ord3::None, true) => ix.col((a(&name(*u)), 8u32)),
+            (Ord3::Asc, false) => ix.col((a(&name(*u)), IndexOrder::Asc)),
+            (Ord3::Desc, false) => ix.col((a(&name(*u)), IndexOrder::Desc)),
+            (Ord3::Asc, true) => ix.col((a(&name(*u)), 8u32, IndexOrder::Asc)),
+            (Ord3::Desc, true) => ix.col((a(&name(*u)), 8u32, IndexOrder::Desc)),
         };
     }
 }
